@@ -337,6 +337,21 @@ func (C06Mon) After(w *core.World, st *core.Step) {
 			}
 		}
 	}
+	if pa := ParseArgv(st.Argv); st.Cmd() == "reset" && st.Exit == 0 && st.Cwd == "" && post.IndexErr == nil {
+		if _, soft := pa.Flag("--soft"); !soft {
+			// the entries last written by reset --mixed / --hard: the snapshot of the commit HEAD names now, path for path
+			if snap, exists, err := headSnapshot(post); exists && err == nil && !HasConflict(snap) {
+				c.Oracle("C06.entries-written")
+				got := map[string]string{}
+				for _, e := range post.Index.Entries {
+					got[e.Path] = e.ID
+				}
+				if !EqualMaps(got, snap) {
+					w.Fail("C06.entries-written", "reset-differs-from-snapshot", "reset", "after %s the staging area differs from the snapshot of %s: %s", st.String(), short(post.HeadCommit()), clipS(DiffMaps(snap, got), 300))
+				}
+			}
+		}
+	}
 	if bytes.Equal(raw0, raw1) {
 		return
 	}
@@ -585,6 +600,19 @@ func runC06Histories(c *core.Ctx) {
 			k.goit("ls-files", "-s")
 			k.goit("rm", ps[2], ps[3])
 			k.goit("restore", "--staged", "long")
+		}
+		if w.Hist%8 == 1 {
+			// directories whose names hold '%' (a name is data, not a format): staged, committed, rebuilt from the tree
+			for _, p := range []string{"100%/y z/f", "%s dir/%d.txt", "a%20b/%", "50%off/x/100%"} {
+				w.Write(p, k.content())
+			}
+			k.goit("add", "100%", "%s dir", "a%20b", "50%off")
+			k.Do("commit")
+			k.goit("reset", "--mixed", "HEAD@{0}")
+			k.goit("ls-files", "-s")
+			k.goit("rm", "100%/y z/f")
+			k.goit("reset", "--hard", "HEAD@{0}")
+			k.goit("ls-files")
 		}
 		if w.Hist%8 == 3 {
 			// scale: the staging-area file grows past 4 KiB (and past 8, 12 KiB), first in one step, then entry by entry
